@@ -64,6 +64,15 @@ def main():
             "caught_by": caught_by,
             "caught": bool(caught_by.get(sid[:3])),
         }
+        # what an earlier run of the matrix recorded (before the checks were strengthened) stays on record
+        if os.path.exists(d + "/meta.json"):
+            try:
+                old = json.load(open(d + "/meta.json"))
+                meta["earlier_runs"] = old.get("earlier_runs", []) + [{"verif_commit": old.get("verif_commit", "?"), "applies_to_repo_head": old.get("applies_to_repo_head"),
+                                                                        "caught": old.get("caught"), "caught_by": old.get("caught_by")}]
+            except Exception:
+                pass
+        meta["verif_commit"] = sh("git -C %s rev-parse --short HEAD" % V).stdout.strip()
         json.dump(meta, open(d + "/meta.json", "w"), indent=1)
         rows.append((sid, "yes" if caught_by.get(sid[:3]) else "NO", ", ".join("%s (seed %d): %s" % (c, v["seed"], " ".join(v["signatures"][:2])) for c, v in caught_by.items()),
                      meta["summary"][:160]))
